@@ -96,6 +96,18 @@ Theorem C03_F6_pinned_refuted :
 Proof. exact F6_pinned_refuted. Qed.
 Print Assumptions C03_F6_pinned_refuted.
 
+(** Execute rejects exactly the requests with an encoded slash under `off`; otherwise the
+    captures are the decoded segments under the wildcard names, for every variant of the decoder *)
+Theorem C03_captures_exact : forall fx7 sl q names segs caps rej,
+  req_guard_F7 fx7 sl q = false ->
+  execute fx7 sl q (map_of (named_pairs names segs)) = (caps, rej) ->
+  rej = spec_rejected sl q /\
+  (rej = false -> forall sc, spec_captures sl names segs = Some sc ->
+     caps_guard_F7 fx7 sl (named_pairs names segs) = false ->
+     caps_guard_F8 fx7 sl (named_pairs names segs) = false -> caps = sc).
+Proof. exact captures_exact. Qed.
+Print Assumptions C03_captures_exact.
+
 (** unnamed wildcards are not exposed by a lookup *)
 Theorem C03_unnamed_not_exposed : forall fx1 fx4 fx6 fx7 eng ds es t q r caps rej cs,
   load true fx4 ds = Loaded es t ->
